@@ -53,6 +53,7 @@ def run(ctx, rep):
     c07.typing(ctx, rep, only="C06-R3")
     r4(ctx, rep)
     r5(ctx, rep)
+    r6(ctx, rep)
 
 
 def r2(ctx, rep, res=None):
@@ -161,3 +162,59 @@ def r5(ctx, rep):
         else:
             rep.ok("C06-R5", "%s|checks" % o, lst[0]["where"], "%d rejecting check(s), all read by: %s" % (len(lst), exp["model"]))
     rep.ok("C06-R5", "census", "-", "%d bodies walked, %d Err constructions (%d catch-all arms of rule dispatches)" % (nbodies, len(sites), nft))
+
+
+def r6(ctx, rep):
+    """number literals: the bounds check on integer literals accepts the whole I-JSON range; float literals are not bounded"""
+    from rules import shared
+    from vflib.terms import Evaluator, subterms
+    prog = ctx.prog
+    ev = Evaluator(prog)
+    rep.rule("C06-R6", "number literals: a range check that guards Literal::Int accepts at least [-(2^53-1), 2^53-1]; no range check "
+             "guards Literal::Float (RFC 9535 bounds integers used as indices, not numbers in comparisons)", floor=2)
+    LIM = 2 ** 53 - 1
+    M = "crate::parser::model::"
+    region, _ = prog.parser_region()
+    tops = sorted(p for p in region if "::{closure#" not in p and p in prog.bodies and not prog.is_expansion(p) and not p.startswith(M))
+    is_parsed = lambda x: any(y.k == "call" and y.a[0].endswith("<impl str>::parse") for y in subterms(x))
+    is_err = lambda x: x.k == "adt" and x.a[1] == "Err"
+    seen = set()
+
+    def visit(t, guards, fn, depth=0):
+        if depth > 14:
+            return
+        if t.k == "if":
+            visit(t.a[1], guards + [(t.a[0], True, is_err(t.a[2]))], fn, depth + 1)
+            visit(t.a[2], guards + [(t.a[0], False, is_err(t.a[1]))], fn, depth + 1)
+            return
+        if t.k == "adt" and t.a[1] == "Ok" and len(t.a[2]) == 1:
+            x = t.a[2][0][1]
+            if x.k == "adt" and x.a[0] == M + "Literal" and x.a[1] in ("Int", "Float"):
+                kind = x.a[1]
+                if (fn, kind) in seen:
+                    return
+                seen.add((fn, kind))
+                where = prog.loc_of(fn)
+                bad = False
+                for cond, pol, rejecting in guards:
+                    if not rejecting or not is_parsed(cond):
+                        continue
+                    iv = shared._accept_interval(prog, cond, pol, is_var=is_parsed)
+                    if kind == "Float":
+                        bad = True
+                        rep.bad("C06-R6", "Literal::Float|bounded", where, "a float literal is rejected by a range check (`%s`): RFC 9535 does not bound "
+                                "numbers in comparisons, `1e16` is a valid literal" % str(cond)[:160])
+                    elif iv is None:
+                        bad = True
+                        rep.unrecognised("C06-R6", "Literal::Int|bounds", where, "the condition guarding integer literals could not be read as an interval: `%s`" % str(cond)[:200])
+                    elif iv[0] > -LIM or iv[1] < LIM:
+                        bad = True
+                        rep.bad("C06-R6", "Literal::Int|bounds", where, "valid query rejected: integer literals are accepted in [%s, %s] only, which leaves out "
+                                "%s of the I-JSON range [-(2^53-1), 2^53-1] (e.g. `$[?@.a == %d]`)" % (
+                                    iv[0], iv[1], "the upper end" if iv[1] < LIM else "the lower end", LIM if iv[1] < LIM else -LIM))
+                if not bad:
+                    rep.ok("C06-R6", "Literal::%s" % kind, where, "no range check cuts into the valid range")
+    for p in tops:
+        t = ev.summary(p)
+        if any(y.k == "adt" and y.a[0] == M + "Literal" and y.a[1] in ("Int", "Float") for y in subterms(t)):
+            visit(t, [], p)
